@@ -399,6 +399,7 @@ type Exec struct {
 
 	sched          *scheduler
 	preemptAtGo    bool
+	jeqDepth       int
 	preemptAtLocks bool
 	races          []RaceReport
 	harnessFn      map[*ssa.Function]bool
